@@ -289,7 +289,9 @@ def write_evidence(prop, tier, seed, obls, outcomes, notes, t0, path, nviol):
         "exhaustive": False,
     }
     ev = {"property_id": prop, "tier": tier, "seed": seed, "level": spec["level"], "coverage": cov,
-          "assumptions": registry.ASSUMPTIONS + spec.get("assumptions", []) + static_engine.scan_assumptions(),
+          "assumptions": registry.ASSUMPTIONS + spec.get("assumptions", []) + static_engine.scan_assumptions()
+                         + ["Verus unit `%s` is checked under these assumptions (trusted shims, assumed contracts of dependencies / of functions proved in another unit): %s"
+                            % (u, "; ".join(items)) for u, items in sorted(verus_engine.UNIT_TRUSTS.items())],
           "wall_s": round(time.time() - t0, 1)}
     if nviol is not None:
         ev["violations"] = nviol
